@@ -122,3 +122,238 @@ Example C35_nonvacuous :
             /\ matching_frames (keys e) [0] (FPlay true ([0], 7)) = Some ([([0], 7)], [([0; 1], 8)])
             /\ matching_frames (keys s) [0] (FPlay true ([0], 7)) = Some ([([0], 7)], []).
 Proof. eexists. vm_compute. repeat split; reflexivity. Qed.
+
+(** * The schedule clause: "every computed block schedule is the same as for the expanded program"
+
+    On top of the models of [ScheduledBasicBlock::build] (Model/Graph.v, C22-C24) and of
+    [as_schedule] (Model/Schedule.v, C25); proofs in Proofs/Simplify35ScheduleProofs.v.
+
+    A block is given, as in C22-C25, by the handler's per-instruction summaries [info] (role,
+    memory accesses, used / blocked frames numbered by [N], is_scheduled) and the optional
+    terminator summary.  [D] is the set of deleted frame definitions.  [unused_block D is term]:
+    no instruction (or terminator) has a frame of [D] in its used set — which C35_frames_exact
+    establishes for the frames [simplify] deletes.  [strip D i] is [i] with the frames of [D]
+    removed from the blocked set — which is what C35_simplified_matching says the handler answers
+    in the simplified program.  Node 0 is the block start, [end_node is] the block end. *)
+From Coq Require Import ZArith.
+From QV Require Import Model.Graph Model.Schedule Proofs.ScheduleProofs
+  Model.Simplify35Schedule Proofs.Simplify35ScheduleProofs.
+
+(** The builder on the restricted summaries (ANY set [D], removed from used and blocked sets
+    alike) fails exactly when the builder on the original summaries fails, with the same error at
+    the same node; otherwise its labelled edge list is the original one minus exactly the edges
+    produced by the two queues (timed, ordering) of the frames of [D], order kept. *)
+Theorem C35_graph_frames_erased :
+  forall (D : list N) (is : list info) (term : option info),
+    build_l (map (restrictD D) is) (option_map (restrictD D) term) =
+    match build_l is term with
+    | inl err => inl err
+    | inr L => inr (live D L)
+    end.
+Proof. exact build_l_restrict. Qed.
+
+(** The same for simplification, where only blocked sets shrink because nobody uses [D]. *)
+Theorem C35_graph_deleted_frames_erased :
+  forall (D : list N) (is : list info) (term : option info),
+    unused_block D is term = true ->
+    build_l (map (strip D) is) (option_map (strip D) term) =
+    match build_l is term with
+    | inl err => inl err
+    | inr L => inr (live D L)
+    end.
+Proof. exact build_l_strip. Qed.
+
+(** The erased edges are harmless: the queues of a frame nobody uses only ever hold blockers, so
+    every edge they produce leaves the block start (the implicit initial user) or enters the
+    block end (final linking of the pending blockers). *)
+Theorem C35_deleted_frame_edges_boundary :
+  forall (D : list N) (is : list info) (term : option info) (L : list ledge),
+    build_l is term = inr L -> unused_block D is term = true ->
+    forall m n l, In (m, n, l) L -> label_dead D l = true -> m = 0 \/ n = end_node is.
+Proof. exact dead_edges_boundary. Qed.
+
+(** On the graphs as the implementation stores them: same success and same error; the simplified
+    block's graph is a subgraph of the expanded block's; every edge it lacks is a frame dependency
+    (Scheduled or StableOrdering, never a memory dependency) out of the block start or into the
+    block end. *)
+Theorem C35_graph_same_up_to_boundary :
+  forall (D : list N) (is : list info) (term : option info),
+    unused_block D is term = true ->
+    match build is term, build (map (strip D) is) (option_map (strip D) term) with
+    | inl e, inl e' => e = e'
+    | inr E, inr E' =>
+        (forall x, In x E' -> In x E) /\
+        (forall a b k, In (a, b, k) E ->
+           In (a, b, k) E' \/ ((a = 0 \/ b = end_node is) /\ (k = KSched \/ k = KStable)))
+    | _, _ => False
+    end.
+Proof. exact build_strip. Qed.
+
+(** Hence every node other than the block end has the same Scheduled predecessors in both graphs,
+    in the same order, once occurrences of the block start are dropped ([nz]). *)
+Theorem C35_same_scheduled_predecessors :
+  forall (D : list N) (is : list info) (term : option info) (E : list gedge),
+    unused_block D is term = true -> build is term = inr E ->
+    exists E', build (map (strip D) is) (option_map (strip D) term) = inr E' /\
+      (forall x, In x E' -> In x E) /\
+      forall node, node <> end_node is -> nz (spreds E' node) = nz (spreds E node).
+Proof. exact build_strip_spreds. Qed.
+
+Section C35_schedule.
+  (** abstract time structure of Model/Schedule.v with the two laws of C25 (a total preorder);
+      durations are arbitrary (not even assumed non-negative or known) *)
+  Variable T : Type.
+  Variables (zero : T) (add sub : T -> T -> T) (ltb : T -> T -> bool).
+  Notation le := (le T ltb).
+  Hypothesis ltb_asym : forall a b, ltb a b = true -> ltb b a = false.
+  Hypothesis le_trans : forall a b c, le a b -> le b c -> le a c.
+
+  (** The scheduler returns literally the same result on both graphs — the same items (node,
+      start, duration) in the same order, the same total duration (= the latest item end; the
+      block end is not a scheduled item and its incoming edges are never read), or the same error
+      — for the canonical traversal [schedule] and for the traversal over ANY node order, from any
+      intermediate state.  [durs] has one (optional) duration per instruction.  No side condition
+      on the total duration is needed: it holds for empty blocks and for instructions that touch
+      only deleted frames as well. *)
+  Theorem C35_schedule_equal :
+    forall (D : list N) (is : list info) (term : option info) (E : list gedge) (durs : list (option T)),
+      unused_block D is term = true -> build is term = inr E -> length durs = length is ->
+      exists E', build (map (strip D) is) (option_map (strip D) term) = inr E' /\
+        schedule T zero add ltb E' durs = schedule T zero add ltb E durs /\
+        forall order ends items total,
+          sched_loop T zero add ltb E' durs (end_of T durs) order ends items total =
+          sched_loop T zero add ltb E durs (end_of T durs) order ends items total.
+  Proof. exact (strip_schedule_equal T zero add ltb ltb_asym le_trans). Qed.
+
+  (** The whole pipeline of [BasicBlock::as_schedule] (graph construction, scheduling, hull over
+      the source instructions [groups]): identical results, failures included. *)
+  Theorem C35_block_schedule_equal :
+    forall (D : list N) (is : list info) (term : option info) (groups : list nat) (durs : list (option T)),
+      unused_block D is term = true -> length durs = length is ->
+      block_schedule T zero add sub ltb (map (strip D) is) (option_map (strip D) term) groups durs =
+      block_schedule T zero add sub ltb is term groups durs.
+  Proof. exact (strip_block_schedule_equal T zero add sub ltb ltb_asym le_trans). Qed.
+
+  (** Declaratively (C25's [cstart] / [cend]: start = max (zero, ends of the Scheduled
+      predecessors)): every instruction has the same ASAP start and end time in both graphs, for
+      every duration assignment. *)
+  Theorem C35_asap_times_equal :
+    forall (D : list N) (is : list info) (term : option info) (E : list gedge) (durs : list (option T)),
+      unused_block D is term = true -> build is term = inr E -> wf_block is term = true ->
+      exists E', build (map (strip D) is) (option_map (strip D) term) = inr E' /\
+        forall node, node < end_node is ->
+          cstart T zero add ltb E' durs node = cstart T zero add ltb E durs node /\
+          cend T zero add ltb E' durs node = cend T zero add ltb E durs node.
+  Proof. exact (strip_asap_equal T zero add ltb ltb_asym le_trans). Qed.
+End C35_schedule.
+
+(** Non-vacuity: frames 0, 2 are used, frame 1 is only ever blocked and is deleted ([D = [1]]).
+    Instruction 1 uses 0 and blocks 1, 2; instruction 2 uses 2 and blocks 1; instruction 3 blocks
+    only the deleted frame (after deletion it matches no frame at all).  The premise holds, both
+    graphs build, they differ (the expanded block's has the Scheduled edges 0->3 and 3->end, the
+    simplified block's has neither), and the schedules coincide: starts 0, 2, 0, total 5. *)
+Example C35_schedule_nonvacuous :
+  let is := [MkInfo RRF false [] [] [] [0] [1; 2] true;
+             MkInfo RRF false [] [] [] [2] [1] true;
+             MkInfo RRF false [] [] [] [] [1] true] in
+  let durs := [Some 2%Z; Some 3%Z; Some 1%Z] in
+  unused_block [1] is None = true /\ wf_block is None = true /\
+  exists E E', build is None = inr E /\ build (map (strip [1]) is) None = inr E' /\
+    In (0, 3, KSched) E /\ In (3, 4, KSched) E /\ ~ In (0, 3, KSched) E' /\ ~ In (3, 4, KSched) E' /\
+    schedule Z 0%Z Z.add Z.ltb E durs = inr ([(1, (0%Z, 2%Z)); (2, (2%Z, 3%Z)); (3, (0%Z, 1%Z))], 5%Z) /\
+    schedule Z 0%Z Z.add Z.ltb E' durs = schedule Z 0%Z Z.add Z.ltb E durs.
+Proof.
+  cbv zeta. split; [reflexivity|]. split; [reflexivity|].
+  eexists. eexists. split; [vm_compute; reflexivity|]. split; [vm_compute; reflexivity|].
+  repeat split; try (vm_compute; tauto); try (vm_compute; intuition congruence).
+Qed.
+
+(** * The schedule clause, end to end from the program model
+
+    [num] is any numbering of frame identifiers injective on the expanded program's frame set;
+    [base bi] supplies the summary fields that depend on the instruction alone (role, memory
+    accesses, is_scheduled) — the same function for both programs, since the body is the same;
+    [binfo num base P bi] is the summary of [bi] in program [P]: those fields plus the handler's
+    [matching_frames] answer in [P]. *)
+
+(** As lists (not only as sets, C35_simplified_matching): in the simplified program the handler
+    answers the same used list and the expanded program's blocked list with the deleted frames
+    filtered out, order kept. *)
+Theorem C35_simplified_matching_lists :
+  forall (expand : program -> option program) (p e s : program),
+    expand p = Some e -> simplify expand p = Some s -> p_frames e = p_frames p ->
+    forall bi, In bi (p_body e) ->
+      matching_frames (keys s) (p_avail s) (bi_frame bi) =
+      match matching_frames (keys e) (p_avail e) (bi_frame bi) with
+      | Some (u, b) => Some (u, filter (fun f => memF f (keys s)) b)
+      | None => None
+      end.
+Proof. exact simplify_matching_lists. Qed.
+
+(** Hence the two premises of the block-level theorems hold for [D] = the deleted frames: every
+    body instruction's summary in the simplified program is its summary in the expanded program
+    stripped of [D], and it uses no frame of [D]. *)
+Theorem C35_simplified_summaries :
+  forall (expand : program -> option program) (p e s : program),
+    expand p = Some e -> simplify expand p = Some s -> p_frames e = p_frames p ->
+    forall (num : frame -> N),
+      (forall f g, In f (keys e) -> In g (keys e) -> num f = num g -> f = g) ->
+      forall (base : binstr -> info) (bi : binstr), In bi (p_body e) ->
+        binfo num base s bi = strip (deleted num e s) (binfo num base e bi)
+        /\ unused (deleted num e s) (binfo num base e bi) = true.
+Proof. exact simplified_binfo. Qed.
+
+(** Every computed block schedule is the same for the simplified and for the expanded program:
+    for every block [blk] (+ optional terminator instruction [tb]) of the body, every grouping
+    into source instructions and every duration list (one entry per instruction, shared by the
+    two programs), the whole [BasicBlock::as_schedule] pipeline returns the same items, the same
+    total duration, or the same error. *)
+Theorem C35_program_block_schedule_equal :
+  forall (T : Type) (zero : T) (add sub : T -> T -> T) (ltb : T -> T -> bool),
+    (forall a b, ltb a b = true -> ltb b a = false) ->
+    (forall a b c, le T ltb a b -> le T ltb b c -> le T ltb a c) ->
+    forall (expand : program -> option program) (p e s : program)
+           (num : frame -> N) (base : binstr -> info)
+           (blk : list binstr) (tb : option binstr) (groups : list nat) (durs : list (option T)),
+      expand p = Some e -> simplify expand p = Some s -> p_frames e = p_frames p ->
+      (forall f g, In f (keys e) -> In g (keys e) -> num f = num g -> f = g) ->
+      (forall bi, In bi (blk ++ Simplify35.opt_list tb) -> In bi (p_body e)) ->
+      length durs = length blk ->
+      block_schedule T zero add sub ltb (map (binfo num base s) blk) (option_map (binfo num base s) tb) groups durs =
+      block_schedule T zero add sub ltb (map (binfo num base e) blk) (option_map (binfo num base e) tb) groups durs.
+Proof. exact simplify_block_schedule_equal. Qed.
+
+(** Non-vacuity at program level: the program of C35_nonvacuous (frames 0 "rf", 1 "rf",
+    0 1 "cz"; a blocking pulse on 0 "rf", a CALL), numbering 710 / 711 / 820.  The hypotheses hold
+    together, frames 711 and 820 are deleted, the pulse's summary loses the blocked frame 820,
+    the graphs differ, and the block schedule is the same. *)
+Example C35_program_schedule_nonvacuous :
+  let e := Prog [BI (FPlay true ([0], 7)) (Some 1) None 100; BI FOther None (Some 4) 101]
+                [50]
+                [(([0], 7), 20); (([1], 7), 21); (([0; 1], 8), 22)]
+                [(1, 30); (2, 31)]
+                [(Some 4, 40); (None, 41); (Some 5, 42)]
+                [(9, 60)] [(10, 61)] [(11, 62)] [0] in
+  let num := fun f : frame => fname f * 100 + N.of_nat (length (fqs f)) * 10 + hd 0 (fqs f) in
+  let base := fun bi : binstr =>
+                match bi_frame bi with
+                | FOther => MkInfo RClassical false [] [] [] [] [] false
+                | _ => MkInfo RRF false [] [] [] [] [] true
+                end in
+  exists s, simplify (fun _ => Some e) e = Some s
+    /\ (forall f g, In f (keys e) -> In g (keys e) -> num f = num g -> f = g)
+    /\ deleted num e s = [711; 820]
+    /\ map (binfo num base e) (p_body e) =
+         [MkInfo RRF false [] [] [] [710] [820] true; MkInfo RClassical false [] [] [] [] [] false]
+    /\ map (binfo num base s) (p_body e) =
+         [MkInfo RRF false [] [] [] [710] [] true; MkInfo RClassical false [] [] [] [] [] false]
+    /\ build (map (binfo num base e) (p_body e)) None <> build (map (binfo num base s) (p_body e)) None
+    /\ block_schedule Z 0%Z Z.add Z.sub Z.ltb (map (binfo num base e) (p_body e)) None [1; 1]%nat [Some 3%Z; Some 1%Z]
+       = inr ([(1, (0%Z, 3%Z)); (2, (0%Z, 1%Z))], 3%Z)
+    /\ block_schedule Z 0%Z Z.add Z.sub Z.ltb (map (binfo num base s) (p_body e)) None [1; 1]%nat [Some 3%Z; Some 1%Z]
+       = inr ([(1, (0%Z, 3%Z)); (2, (0%Z, 1%Z))], 3%Z).
+Proof.
+  cbv zeta. eexists. split; [vm_compute; reflexivity|]. split.
+  - intros f g [<-|[<-|[<-|[]]]] [<-|[<-|[<-|[]]]]; vm_compute; congruence.
+  - repeat split; try (vm_compute; reflexivity). vm_compute. discriminate.
+Qed.
